@@ -21,6 +21,11 @@ CHECKS = [
      "text": "Every class in the Message subclass closure and unknown codes x all 256 flag octets x flags set before/after construction x boundary ids: answer class, copied header fields, flags == request & P, request unmodified. Every typed request class x Session-Id/Proxy-Info presence through Application.generate_answer and Node._generate_answer: Origin-Host/Realm, copied Session-Id/Proxy-Info verified on the encoded bytes.",
      "note": "Exhaustive over classes x flag octets; ids/app-ids are boundary tuples plus random samples. Helper clause on typed requests only (documented precondition)."},
 ]
+CHECKS.append(
+    {"id": "C03", "engine": "E1-refcodec", "category": "exploration", "design_ref": "DESIGN.md section 3 C03",
+     "technique": "exhaustive static cross-check of every attribute definition against the dictionary + property-based testing (Hypothesis) of attribute subsets with an independent reference parser as encode oracle and structural decode/round-trip oracles",
+     "text": "All typed message classes and grouped containers are discovered structurally; every avp_def entry is cross-checked (dictionary entry exists, container => Grouped, no duplicate attribute or AVP); every usable definition is individually set, encoded and decoded at least once per run (enforced: 100% or exit 2), plus random subsets / all / none, list attributes with 0..3 elements, containers nested to depth 4 and undeclared extra AVPs. Encoded bytes are parsed by the reference parser and compared per definition (count, flags, payload, order within a key); decode must restore every value; encode-decode-encode == encode. Untyped commands: attribute exposure by normalised name, repeats as lists, groups as nested objects.",
+     "note": "Trusted: dv/refcodec.py; list-ness = list on a fresh instance or list[...] annotation; values valid for the dictionary type; AVP order across different definitions not demanded."})
 
 _TODO = "check not built yet in this session (planned, see DESIGN.md); not claimed until its machinery is committed"
 NOT_APPLICABLE = [{"property_id": f"C{n:02d}", "reason": _TODO} for n in range(2, 21) if f"C{n:02d}" not in {c["id"] for c in CHECKS}]
